@@ -55,7 +55,7 @@ def case_sig(case):
     npages = max([len(g["pages"]) for g in case["rgs"]] + [0])
     return {"class": case["cls"], "mode": case["mode"], "v": case["v"], "nullpat": case["nullpat"],
             "pages": "multi" if npages > 1 else "one", "rgs": "multi" if len(case["rgs"]) > 1 else "one",
-            "rows": "0" if n == 0 else "some"}
+            "rows": "0" if n == 0 else "some", "opt": case.get("opt", "default")}
 
 
 def replay_chunk(args):
@@ -80,6 +80,19 @@ def replay_chunk(args):
                 continue
             z = pd.Series(np.arange(len(cells), dtype="int64") * 7 + 91000, name="z")
             df = pd.DataFrame({"x": ser, "z": z})
+            opt = case.get("opt")
+            widx = False
+            if opt == "index":
+                # x is the frame's named row index (categorical / datetime / text / ... index as the class says)
+                df = pd.DataFrame({"z": z.values}, index=pd.Index(ser, name="x"))
+                widx = None
+            elif opt == "index2":
+                # x is the first level of a two-level index; the second level repeats three integers
+                w = np.arange(len(cells), dtype="int64") % 3 + 40
+                df = pd.DataFrame({"z": z.values}, index=pd.MultiIndex.from_arrays([ser, w], names=["x", "w"]))
+                widx = None
+            elif opt == "rangeidx":
+                widx = True                       # the automatic range index is written as a column named "index"
             path = os.path.join(d, "c%d.parquet" % ci)
             has_nulls = {"true": True, "false": False, "infer": "infer"}[case["mode"]]
             stats = {"true": True, "false": False, "auto": "auto"}[case["stats"]]
@@ -98,7 +111,7 @@ def replay_chunk(args):
                 elif case.get("opt") == "explicit":
                     okw["object_encoding"] = {"x": "bytes" if cls == "obj_bytes" else "utf8", "z": "infer"}
                 fp.write(path, df, has_nulls=has_nulls, row_group_offsets=(case["rgo"] or None), stats=stats,
-                         write_index=False, compression=(None if case.get("codec", "none") == "none" else case["codec"]),
+                         write_index=widx, compression=(None if case.get("codec", "none") == "none" else case["codec"]),
                          **okw)
             except BaseException as e:  # noqa
                 raised = e
@@ -123,7 +136,29 @@ def replay_chunk(args):
             try:
                 pf = fp.ParquetFile(path)
                 got = pf.to_pandas()
-                if list(got.columns) != ["x", "z"]:
+                if opt in ("index", "index2", "rangeidx"):
+                    # the row index that was written comes back as the row index, with its name(s), and the written
+                    # column(s) as columns; from here on "x" is looked at as a column of the re-set frame
+                    names = {"index": ["x"], "index2": ["x", "w"], "rangeidx": ["index"]}[opt]
+                    if list(got.index.names) != names:
+                        out["viol"].append(("C01", dict(sig, what="names of the written row index changed on read-back",
+                                                        opt=opt), ci))
+                        got = None
+                    elif opt == "rangeidx":
+                        if [int(v) for v in got.index] != list(range(len(cells))):
+                            out["viol"].append(("C01", dict(sig, what="labels of the written range index changed on read-back",
+                                                            opt=opt), ci))
+                        got = got.reset_index(drop=True)
+                    else:
+                        if opt == "index2" and [int(v) for v in got.index.get_level_values("w")] != \
+                                [i % 3 + 40 for i in range(len(cells))]:
+                            out["viol"].append(("C01", dict(sig, what="second level of the written row index changed on "
+                                                                      "read-back", opt=opt), ci))
+                        gi = got.index.get_level_values("x")
+                        got = pd.DataFrame({"x": pd.Series(gi.array if hasattr(gi, "array") else gi), "z": got["z"].values})
+                if got is None:
+                    pass
+                elif list(got.columns) != ["x", "z"]:
                     out["viol"].append(("C01", dict(sig, what="column names or order changed"), ci))
                 elif len(got) != len(cells):
                     out["viol"].append(("C01", dict(sig, what="row count changed"), ci))
@@ -136,6 +171,15 @@ def replay_chunk(args):
                     if bad:
                         kind = "missingness" if any((cells[i] < 0) for i in bad) else "value"
                         out["viol"].append(("C01", dict(sig, what="cell %s changed on read-back" % kind), ci))
+                    elif opt in ("index", "index2"):
+                        # the row index: its labels (above), its names, and for a categorical index the categories and the
+                        # order flag; the storage dtype of index labels (Int32 vs int64, level dtypes of a MultiIndex)
+                        # is not something the property speaks about
+                        if opt == "index" and cls.startswith("cat_") and len(cells):
+                            if str(gx.dtype) != "category" or list(gx.cat.categories) != list(ser.cat.categories) or \
+                                    bool(gx.cat.ordered) != bool(ser.cat.ordered):
+                                out["viol"].append(("C01", dict(sig, what="categories or order flag of a categorical row "
+                                                                          "index changed on read-back"), ci))
                     elif not CZ.dtype_ok(cls, gx.dtype) and len(cells) and not (
                             case.get("opt") == "int96" and str(gx.dtype).startswith("datetime64[")):
                         # (INT96 has one resolution: a timestamp column stored that way comes back as datetime64[ns],
